@@ -664,6 +664,19 @@ func failFlood(t *testing.T, n int) {
 	if err != nil {
 		panic("INFRA: " + err.Error())
 	}
+	// files that end before the pages their header accounts for
+	if raw, err := os.ReadFile(good); err == nil {
+		for i, cut := range []int{len(raw) - 4096, len(raw) / 2 / 4096 * 4096, 3 * 4096} {
+			if cut < 2*4096 || cut >= len(raw) {
+				continue
+			}
+			p := filepath.Join(dir, fmt.Sprintf("cut%d.updog", i))
+			if err := os.WriteFile(p, raw[:cut], 0o644); err != nil {
+				panic("INFRA: " + err.Error())
+			}
+			paths, kinds = append(paths, p), append(kinds, -1-i)
+		}
+	}
 	cfgs := []fix.OpenCfg{{Preload: true, CacheCap: -1}, {Preload: true, CacheCap: 4096}}
 	warm := func() {
 		for i, p := range paths {
@@ -676,6 +689,7 @@ func failFlood(t *testing.T, n int) {
 	runtime.GC()
 	fd0, g0 := fix.FDCount(0), runtime.NumGoroutine()
 	failed := 0
+	gcOn := fix.NoGC()
 	for i := 0; i < n; i++ {
 		p := paths[i%len(paths)]
 		idx, _, err := fix.Open(p, cfgs[(i/len(paths))%2])
@@ -686,12 +700,14 @@ func failFlood(t *testing.T, n int) {
 		failed++
 	}
 	time.Sleep(50 * time.Millisecond)
+	fd1 := fix.FDCount(0) // before any collection: finalizers would close what was left open
+	gcOn()
 	runtime.GC()
-	fd1, g1 := fix.FDCount(0), runtime.NumGoroutine()
+	g1 := runtime.NumGoroutine()
 	evid.Case(failed > n/2, fmt.Sprintf("fail flood: %d opens of %d damaged files, %d failed; descriptors %d -> %d, goroutines %d -> %d", n, len(paths), failed, fd0, fd1, g0, g1), "fail-flood")
 	c := &Case{Data: spec, Damages: []Damage{{Kind: kinds[0], Arg: n}}, Open: cfgs[0]}
 	if fd0 >= 0 && fd1 > fd0+8 {
-		fix.Fail(t, prop, "flood", c, "fail flood", fmt.Errorf("after %d failed opens (preload; damage kinds %v) the process holds %d open descriptors, %d before: failing opens do not release what they acquire", failed, kinds, fd1, fd0))
+		fix.Fail(t, prop, "flood", c, "fail flood", fmt.Errorf("after %d failed opens (preload; damage kinds %v, negative = file cut short) the process holds %d open descriptors, %d before: failing opens do not release what they acquire", failed, kinds, fd1, fd0))
 	}
 	if g1 > g0+8 {
 		fix.Fail(t, prop, "flood", c, "fail flood", fmt.Errorf("after %d failed opens the process has %d goroutines, %d before", failed, g1, g0))
